@@ -82,13 +82,20 @@ def sample_file(rng, inst, path, n=None, floatdata=False, voltage=None, amp_log=
     if time_info == 'nostep':
         extra += [('$DATE', '05-JAN-2021'), ('$BTIM', '11:00:00'), ('$ETIM', '11:01:30')]
     if floatdata:
+        # per fluorescence channel: some negative events / some events exactly zero but none negative / all positive
+        modes = [str(rng.choice(['neg', 'zeros', 'pos'])) for _ in inst['fl']]
         ev = []
         for i in range(n):
             row = []
             for j in range(D):
                 v = float(cols[j][i])
                 if 2 <= j < 2 + len(inst['fl']):
-                    v = float(10 ** (4 * v / 1024.0)) - (30.0 if rng.random() < 0.1 else 0.0)
+                    mode = modes[j - 2]
+                    v = float(10 ** (4 * v / 1024.0))
+                    if mode == 'neg' and rng.random() < 0.1:
+                        v -= 30.0
+                    elif mode == 'zeros' and rng.random() < 0.06:
+                        v = 0.0
                 row.append(v)
             ev.append(row)
         spec = dict(version='FCS3.0', datatype='F', widths=[32] * D, events=ev, ranges=[262144] * D, names=names,
@@ -108,7 +115,7 @@ UNITS = ['', 'Channel', 'RFI', 'a.u.', 'au', 'MEF', 'rfi', 'mef', 'A.U.', 'chann
 
 
 def experiment(rng, base_dir, n_inst=None, n_beads=None, n_samples=None, units_pool=UNITS, float_frac=0.3,
-               npop=4, fractions=(0.3, 0.5, 0.85, 1.0), nfl=None):
+               npop=4, fractions=(0.3, 0.5, 0.85, 1.0), nfl=None, force_float_first=False):
     """Writes FCS files under base_dir and returns (instruments_df, beads_df, samples_df, info)."""
     os.makedirs(base_dir, exist_ok=True)
     n_inst = n_inst or int(rng.integers(1, 4))
@@ -141,7 +148,7 @@ def experiment(rng, base_dir, n_inst=None, n_beads=None, n_samples=None, units_p
     info = {'insts': insts, 'sample_specs': {}}
     for k in range(n_samples):
         it = insts[int(rng.integers(n_inst))]
-        isf = rng.random() < float_frac
+        isf = (rng.random() < float_frac) or (force_float_first and k == 0)
         fn = 'sample_%d.fcs' % k
         ti = str(rng.choice(['full', 'full', 'nodate', 'nostep', 'none']))
         wt = rng.random() < 0.7
@@ -165,6 +172,8 @@ def experiment(rng, base_dir, n_inst=None, n_beads=None, n_samples=None, units_p
                         else:
                             row['Beads ID'] = ok[int(rng.integers(len(ok)))]['ID']
             row[ch + ' Units'] = u if u != '' else None
+        if force_float_first and k == 0 and all(row[ch + ' Units'] is None for ch in it['fl']):
+            row[it['fl'][0] + ' Units'] = 'RFI'
         srow.append(row)
     cols = ['ID', 'Instrument ID', 'Beads ID', 'File Path'] + [ch + ' Units' for ch in allfl] + ['Gate Fraction', 'Strain']
     stab = pd.DataFrame(srow, columns=cols).set_index('ID')
